@@ -71,7 +71,7 @@ class C09(Property):
     configs = ('A',)
     bytes_per_case = 768
     technique = 'metamorphic property testing (Hypothesis): shift-by-k relation and agreement relations between every public entry point on the same text'
-    level_text = ('~20k (quick) / 400k (thorough) valid and invalid texts x start offsets up to 2^32-1-len: parse_starts_at == shift(parse), lex_starts_at likewise, '
+    level_text = ('~60k (quick) / 400k (thorough) valid and invalid texts x start offsets up to 2^32-1-len: parse_starts_at == shift(parse), lex_starts_at likewise, '
                   'parse_tokens(lex) == parse, interactive body == module body, expression mode == the expression statement of module mode, Suite/Stmt/Expr/'
                   'Identifier/Constant and all 55 generated per-kind parsers return the corresponding part (or InvalidToken at the node start), deprecated '
                   'helpers == replacements, Mode::from_str accepts exactly exec/eval/single')
@@ -79,7 +79,7 @@ class C09(Property):
     rule = ('texts from PyGen (valid) and the invalid-input generators; non-trivial = k != 0 and >= 3 tokens, or a typed parser other than Suite; distinct by case hash')
 
     def budget(self, tier):
-        return 20000 if tier == 'quick' else 400000
+        return 60000 if tier == 'quick' else 400000
 
     def explicit_cases(self, ctx):
         for s in ['exec', 'eval', 'single', 'Exec', 'EXEC', ' exec', 'exec ', '', 'module', 'expression', 'interactive', 'func_type', 'e', 'evall', 'é', 'single\n']:
